@@ -1,10 +1,50 @@
 package c09
 
 import (
+	_ "embed"
+	"encoding/json"
+
 	"verif/core"
+	gm "verif/ref/genmodel"
 )
 
-// runRegress runs the fixed regression corpus (the minimal inputs of the listed findings) first.
-func runRegress(r *core.Run, w *worker) bool {
-	return true
+// The regression corpus: one recorded failing case per listed finding signature (body AST, history, drain
+// mode, stack capacity), generated from the replay files of a complete quick run (scripts in NOTES.md).
+// It is run first so that every listed finding is reached even when the run is cut by its deadline.
+//
+//go:embed regress.json
+var regressJSON []byte
+
+// RCase is one regression case.
+type RCase struct {
+	Sig     string      `json:"signature"` // the signature it reproduced when it was recorded (informational)
+	Part    string      `json:"part"`
+	Name    string      `json:"name"`
+	Prog    *gm.Program `json:"prog"`
+	History []Step      `json:"history"`
+	Batch   bool        `json:"batch,omitempty"`
+	OneRun  bool        `json:"one_script_run,omitempty"`
+	Caps    int         `json:"stack_caps"`
+}
+
+func runRegress(r *core.Run, w *worker) {
+	var cases []RCase
+	if err := json.Unmarshal(regressJSON, &cases); err != nil {
+		r.Violation("regress|bad-corpus", err.Error(), nil)
+		return
+	}
+	n := 0
+	for _, rc := range cases {
+		hist := make([]Step, len(rc.History))
+		for i, st := range rc.History {
+			hist[i] = Step{Op: st.Op, K: st.K, V: st.V, Ctx: st.Ctx}
+		}
+		class, out := failsAs(rc.Part, rc.Name, rc.Prog, hist, rc.Batch, rc.OneRun, rc.Caps)
+		r.Eval(1)
+		n++
+		if out != nil {
+			w.report(class, out)
+		}
+	}
+	r.Set("regression_cases", n)
 }
